@@ -252,6 +252,10 @@ def render_body(k, part, rot):
                  # failing line is still the line that raised
                  [[first], ['try:', '    raise %s(%r)' % (cls[0], msg), 'finally:', '    y%d = 0' % k]],
                  [[first], ['try:', '    z%d = xdvhelp.boom(%s(%r))' % (k, cls[0], msg), 'except ZeroDivisionError:', '    y%d = 0' % k]]]
+        if want == 'none' and b == 'raise' and _JOB.get('own_lineno_forms'):       # (switched on by the C09 check)
+            # exceptions that carry a line number of their OWN text (not of the doctest): the failing line is the statement's
+            forms += [[[first], ['y%d = 0' % k], ["z%d = compile('x = (', 'inner text', 'exec')" % k]],
+                      [[first], ['import json'], ["z%d = json.loads('{bad json')" % k]]]
         if single:
             forms = [f for f in forms if len(f) == 1]
         return forms[(rot // 2) % len(forms)]
@@ -409,7 +413,7 @@ def render_program(prog, wants, rot, indent=0):
         last_at = src_at + len(src) - (len(stmts[-1]) if stmts else 0)
         fail_at = last_at
         for li in range(last_at, src_at + len(src)):            # the line of the last statement that raises (when it is an inner line)
-            if any(tok in src[li - src_at] for tok in ('raise ', '.boom(', 'rz(', 'rze(', 'hh(')):
+            if any(tok in src[li - src_at] for tok in ('raise ', '.boom(', 'rz(', 'rze(', 'hh(', 'compile(', 'json.loads(')):
                 fail_at = li
                 break
         infos.append({'src_at': src_at, 'nsrc': len(src), 'want_at': want_at, 'nwant': len(wl), 'last_stmt_at': last_at, 'fail_at': fail_at})
@@ -424,7 +428,7 @@ def render_program(prog, wants, rot, indent=0):
 
 KIND_TO_EXC = {
     'gotwant': ('GotWantException',),
-    'exc': ('ValueError', 'CustomErr', 'KeyError', 'NameError'),
+    'exc': ('ValueError', 'CustomErr', 'KeyError', 'NameError', 'SyntaxError', 'JSONDecodeError'),
     'compile': ('SyntaxError',),
     'reprfail': ('ExtractGotReprException', 'RuntimeError'),
     'directive': ('Exception',),
